@@ -105,6 +105,8 @@ def gen(cls, maxlen=8):
     w('    MemFile mf2(buf2, sizeof buf2);')
     w('    b.write(mf2);')
     w('    vp_note("p2", mf2.p); vp_out(buf2, mf2.p, "bytes2");')
+    w('    // decoding does not depend on what the destination object held before: the same bytes once more into the used object')
+    w('    { MemFile mf3(buf1, sizeof buf1, mf.p); b.read(mf3); vp_note("g3", mf3.g); }')
     w('    delete ap;')
     w('    vp_reach("h_rt:end");')
     w('}')
@@ -292,6 +294,13 @@ def make_rt_judge(cls, padding_types, default_obj=False):
                 ok, m = J.can_be(ex, st, X.ne(J.cells_value(tb), ct, 32))
                 if ok:
                     _viol(ex, st, 'typecode', '%s: type code read back differs from the constructed one' % cls, m)
+        # ---- C03 / C01: decoding into an object that was used before consumes the same bytes
+        g3 = J.note(st, 'g3')
+        if g3 is not None and g2 is not None and not default_obj:
+            ok, m = J.can_be(ex, st, X.ne(st.simp(g3), st.simp(g2), 64))
+            if ok:
+                _viol(ex, st, 'framing', '%s: decoding the same bytes into an object that was used before consumes %s bytes, into a fresh object %s' % (
+                    cls, X.evaluate(st.simp(g3), m or {}), X.evaluate(st.simp(g2), m or {})), m)
         # ---- C03 framing
         n1 = len(b1)
         if n1 < 16:
